@@ -65,6 +65,8 @@ def replay(prop, res, f, repo, index, outbase, gen, sp, max_n=3, timeout=240):
     m_edges = re.match(r'^(L[DU]G_\w+?)_Edges(_EIt)?__(\w+)$', target)
     if m_edges:
         return replay_edges(prop, res, f, repo, index, outbase, gen, sp, m_edges, max_n, timeout)
+    if target.startswith('loadBinaryEdgeList_1_NoLabel_'):
+        return replay_loader(prop, res, f, repo, index, outbase, gen, sp, target, timeout)
     if target.startswith('getSubgraph_2_'):
         return replay_free(prop, res, f, repo, index, outbase, gen, sp, target, max_n, timeout)
     info = classify(target)
@@ -201,6 +203,92 @@ int main() {
     return found, header + '// result: %s\n/* output of the replay on the real code:\n%s\n*/\n%s' % (
         'FAILING INPUT FOUND (exit %d)' % code if found else 'no failing input among all graphs with <= %d vertices' % max_n,
         '\n'.join(out.strip().split('\n')[-20:]), src)
+
+
+def replay_loader(prop, res, f, repo, index, outbase, gen, sp, target, timeout):
+    """loadBinaryEdgeList<Graph, NoLabel>: every record sequence over 3 vertices of length <= 3, written little-endian,
+    cut at EVERY byte offset, plus a file that cannot be opened; the contract clauses are evaluated on
+    alpha(file) = classified complete records + tail bytes and alpha(returned graph)"""
+    tent = index['functions'].get(target)
+    if tent is None or tent.get('status') != 'ok' or target not in sp.contracts:
+        return False, '// no native replay driver for %s\n' % target
+    ret, name, params = split_params(tent['sig'])
+    rinfo = classify(ret.replace('const ', '').strip()[len('struct '):] + '__x')
+    if rinfo is None:
+        return False, '// no native replay rule for the signature of %s\n' % target
+    cl = f.get('clause')
+    clauses = sp.contracts[target]
+    own = cl is not None and cl.get('fn') == target and cl.get('kind') == 'ensures'
+    oracle = [c for c in clauses if c.kind == 'ensures' and (c.src == cl['src'] if own else (c.enabled(prop) and '__CPROVER_is_fresh' not in c.expr))]
+    pre = [c for c in clauses if c.kind == 'requires' and c.enabled(prop)]
+    tmpf = outbase + '.edges.bin'
+    tmpl = 'BaseGraph::LabeledUndirectedGraph' if rinfo['undirected'] else 'BaseGraph::LabeledDirectedGraph'
+    L = ['#include "native.hpp"', '#include "BaseGraph/fileio.hpp"', '#include "view.h"', '#include <fstream>',
+         'typedef %s RG;' % rinfo['graph'], 'typedef %s RAbs;' % rinfo['abs'],
+         '#define __CPROVER_is_fresh(p, n) 1', 'bg_file_t bg_file; bg_bool bg_SYSTEM_IS_BIG_ENDIAN = 0;', 'static const char *bg_failed = 0;',
+         'int main() {', '  long calls = 0; int rc = 0; const char *path = "%s";' % tmpf, '  bg_install_handlers();',
+         '  const int V = 3, MAXREC = 3;',
+         '  for (int len = 0; len <= MAXREC && !rc; ++len) {',
+         '    long combos = 1; for (int k = 0; k < len; ++k) combos *= V * V;',
+         '    for (long c = 0; c < combos && !rc; ++c) {',
+         '      unsigned rec[MAXREC][2]; long cc = c; for (int k = 0; k < len; ++k) { rec[k][0] = cc % V; cc /= V; rec[k][1] = cc % V; cc /= V; }',
+         '      for (int cut = -1; cut <= 8 * len && !rc; ++cut) {   /* cut == -1: the file does not exist */',
+         '        std::remove(path);',
+         '        if (cut >= 0) { std::ofstream o(path, std::ios::binary); int n = 0;',
+         '          for (int k = 0; k < len; ++k) for (int fld = 0; fld < 2; ++fld) for (int b = 0; b < 4; ++b, ++n) if (n < cut) o.put((char)((rec[k][fld] >> (8 * b)) & 0xff)); }',
+         '        for (VertexIndex p = 0; p < (VertexIndex)V && !rc; ++p) for (VertexIndex q = 0; q < (VertexIndex)V && !rc; ++q) {',
+         '          G_P = p; G_Q = q; bg_exc = 0; bg_scratch_row.valid = 0; bg_scratch_row.owner = 0; bg_cur_adj = 0; bg_ghost_frontier.a = 0;',
+         '          int complete = cut < 0 ? 0 : cut / 8;',
+         '          bg_file.openable = cut >= 0; bg_file.nPQ = bg_file.nQP = bg_file.nOther = 0; bg_file.otherBound = 0;',
+         '          bg_file.tail = cut < 0 ? 0 : cut % 8; bg_file.bytes = cut < 0 ? 0 : cut;',
+         '          for (int k = 0; k < complete; ++k) {',
+         '            if (rec[k][0] == p && rec[k][1] == q) bg_file.nPQ++; else if (p != q && rec[k][0] == q && rec[k][1] == p) bg_file.nQP++;',
+         '            else { bg_file.nOther++; for (int fld = 0; fld < 2; ++fld) if (rec[k][fld] + 1 > bg_file.otherBound) bg_file.otherBound = rec[k][fld] + 1; } }',
+         '          const bg_string fileName_abs = {0}; const bg_string *fileName = &fileName_abs;']
+    for c in pre:
+        L.append('          if (!(%s)) continue; // requires %s' % (cpp_clause(c.expr, 'NoLabel'), c.src))
+    L += ['          ++calls;',
+          '          snprintf(bg_last_input, sizeof bg_last_input, "%d records, file cut at byte %d of %d  [G_P=%u G_Q=%u]", len, cut, 8 * len, p, q);',
+          '          RG real_ret(0); try { real_ret = BaseGraph::io::loadBinaryEdgeList<%s, BaseGraph::NoLabel>(std::string(path)); } BG_CATCH_ALL' % tmpl,
+          '          RAbs bg_ret; Cells<NoLabel> ret_cells; alpha(real_ret, bg_ret, ret_cells);']
+    for c in oracle:
+        L.append('          if (!(%s)) bg_failed = "%s %s";' % (cpp_clause(c.expr, 'NoLabel'), c.name, c.src))
+    L += ['          if (bg_failed) {',
+          '            printf("CLAUSE FALSE ON THE REAL CODE: %s\\n  file: %d records", bg_failed, len);',
+          '            for (int k = 0; k < len; ++k) printf(" (%u,%u)", rec[k][0], rec[k][1]);',
+          '            printf(cut < 0 ? ", file missing" : ", cut after byte %d of %d", cut, 8 * len);',
+          '            printf("\\n  call: loadBinaryEdgeList(path)  observed at G_P=%u G_Q=%u  exception code after call=%d, %zu edges returned\\n", p, q, bg_exc, real_ret.getEdgeNumber());',
+          '            rc = 1;', '          }', '        }', '      }', '    }', '  }',
+          '  std::remove(path);', '  printf("%ld calls replayed\\n", calls);', '  return rc;', '}']
+    src = '\n'.join(L) + '\n'
+    cpp, exe = outbase + '.cpp', outbase + '.bin'
+    open(cpp, 'w').write(src)
+    cmd = ['g++', '-std=c++14', '-O1', '-w', '-fno-access-control', '-DBG_L=NoLabel', '-I', os.path.join(repo, 'include'),
+           '-I', os.path.join(ROOT, 'shim'), '-I', gen, '-I', os.path.join(ROOT, 'contracts'), '-I', HERE,
+           '-fsanitize=address,undefined', '-fno-sanitize-recover=all', '-D_GLIBCXX_DEBUG', '-D_GLIBCXX_ASSERTIONS', '-g', cpp, '-o', exe]
+    r = subprocess.run(cmd, stdout=subprocess.PIPE, stderr=subprocess.STDOUT, text=True)
+    header = '// native replay of %s\n// build: %s\n' % (f.get('key'), ' '.join(cmd).replace(gen, '<gen: bin/extract --out DIR>'))
+    if r.returncode != 0:
+        try:
+            os.remove(cpp)
+        except OSError:
+            pass
+        return False, header + '// replay did not compile:\n' + ''.join('// ' + l + '\n' for l in r.stdout.split('\n')[-30:]) + src
+    try:
+        r = subprocess.run([exe], stdout=subprocess.PIPE, stderr=subprocess.STDOUT, text=True, timeout=timeout,
+                           env=dict(os.environ, ASAN_OPTIONS='detect_leaks=0:handle_segv=0:handle_abort=0:handle_sigbus=0'))
+        out, code = r.stdout, r.returncode
+    except subprocess.TimeoutExpired:
+        out, code = 'TIMEOUT', 0
+    for pth in (exe, cpp, tmpf):
+        try:
+            os.remove(pth)
+        except OSError:
+            pass
+    found = code != 0
+    return found, header + '// result: %s\n/* output of the replay on the real code:\n%s\n*/\n%s' % (
+        'FAILING INPUT FOUND (exit %d)' % code if found else 'no failing input among all files of <= 3 records over 3 vertices cut at every byte',
+        '\n'.join(out.strip().split('\n')[-20:]).replace('*/', '* /'), src)
 
 
 FREE_CPP = {'getSubgraph': 'BaseGraph::algorithms::getSubgraph'}
